@@ -61,4 +61,10 @@ PROPS = {
         quick=dict(runs=[dict(tests="^TestC15$", checks=250)], min_nontrivial=15),
         thorough=dict(runs=[dict(tests="^TestC15$", checks=800, shards=16, timeout=3000)], min_nontrivial=500),
     ),
+    "C09": dict(
+        rule="a reference site in namespace a (auth-tls-secret, secure-crt-secret, secure-verify-ca-secret, auth-secret, auth-url svc://) in the forms b/name and secret://b/name, placed on the Ingress or on the Service, pointing at an object of namespace b; all four cross-namespace-* keys drawn from {unset, deny, allow, Allow, invalid values}, --allow-cross-namespace on/off, namespace b using its own object or not. Two fresh syncs are compared by behavioural normal form: R1 the foreign object exists vs is absent (object otherwise unused; also no PEM file of it may be written), R2 the reference names the existing object vs a non-existent name of b (object possibly used by b itself). When the site's kind is denied the two normal forms must be identical. Cases whose kind is allowed serve as controls (the reference must change the output) and are not counted as non-trivial. Non-trivial = kind denied; distinct by digest.",
+        assumptions=HAPCFG_ASSUMPTIONS + ["spec.tls[].secretName and Gateway certificateRefs[].name cannot contain a namespace in a real cluster (API validation): only free-form annotation values are generated"],
+        quick=dict(runs=[dict(tests="^TestC09$", checks=500)], min_nontrivial=60),
+        thorough=dict(runs=[dict(tests="^TestC09$", checks=2500, shards=16, timeout=3000)], min_nontrivial=400),
+    ),
 }
